@@ -19,7 +19,7 @@ NA = {
 }
 
 PENDING = {
-    'C07': 'filestore', 'C11': 'lifecycle', 'C13': 'playback',
+    'C07': 'filestore', 'C13': 'playback',
     'C16': 'history', 'C17': 'charset', 'C18': 'netsim',
 }
 
@@ -40,6 +40,10 @@ CHECKS = {
                 technique='deterministic thread simulation: real threads under a seeded baton-passing scheduler (random walk, PCT, round-robin) with settrace line-level pre-emption, simulated RLock/Queue/sleep; history oracle (exactly-once, per-sender FIFO, real-time order, copy, wire integrity, liveness)',
                 text='Small programs of 1-3 sender and 1-3 receiver threads (send / receive / poll / iter_pending / iteration) run on the real port classes - a lock-protected custom device port (both _receive styles, byte-wise _send onto a wire double), EchoPort, the IOPort wrapper over two device doubles, MultiPort (with and without yield_ports, receivers also reading sub-ports directly) and a ParserQueue-backed rtmidi-shaped port - under a scheduler that decides every interleaving at statement granularity in mido/ports.py, parser.py, tokenizer.py and _parser_queue.py. After each run the recorded history is checked: no call raised, no deadlock, the wire image is a concatenation of whole encodings, every sent message received exactly once (x fan-out) and intact, per sender in order and in real-time order across receivers (unique values, so the FIFO linearizability condition is exact and cheap), nothing received before sent, received object is an unmodified copy although the sender mutates its object afterwards, and no receiver stays blocked while a message is deliverable on its port. Every violation is replayed from its recorded decision list in a fresh process before it is reported.',
                 note='Pre-emption granularity is one source line of the files under test; deque.append/popleft assumed atomic (CPython). threading.RLock, queue.Queue, time.sleep and random.shuffle are simulator stubs; C-library backends are not run.'),
+    'C11': dict(engine='lifecycle', category='exploration', design='3 / C11',
+                technique='single-threaded discrete-event simulation: caller operation histories against a device on a virtual clock with injected hang-ups, partial messages and write errors; per-operation reference model (FIFO of taken-in messages, release count, reset batches, deadlines)',
+                text='Generated histories (send, receive, receive(block=False), poll, iter_pending, for-loops with optional close() in the body, close, with-blocks whose body may raise, reset, panic, del, clock advance) on each port type - custom device ports (input/output/IO; old-style, new-style and genuinely blocking _receive), EchoPort, IOPort over two device doubles, MultiPort over 1-3 device ports. The device lives on the simulated clock: messages arrive at planned times; it hangs up (closes the port from inside _receive) at every position relative to the arrivals, optionally after a partial message; _send raises OSError at planned call indices, also during the autoreset of close(). Checked per operation: device released exactly once in total; the 32 reset messages exactly once and before the release; send after close raises ValueError and never reaches the device; receive/poll/iteration hand out exactly the taken-in messages in order, then None / raise / end of iteration without an exception; a non-blocking call never advances the clock or sleeps; a blocking receive returns within 3 poll intervals of a message becoming deliverable and a call still inside 50 intervals after the last scheduled event is reported as never returning; with closes on both exits and does not swallow the exception.',
+                note='"Taken in" is defined observably (bytes the device double handed to the port). Single caller thread by design: the documentation says opening and closing ports is not thread safe. Socket ports are exercised by the netsim engine (C18), C-library backends are not run.'),
 }
 
 
